@@ -1,6 +1,6 @@
 From Coq Require Import ExtrOcamlBasic.
-From WacV Require Import Str Types Checker SubSpec.
+From WacV Require Import Str Types C07Flags Checker SubSpec.
 Extraction Language OCaml.
 Extraction "../build/c07/model.ml"
   N.of_nat mktypes mkid mkres mkfunc mkif mkworld mkmod mkcf mkref
-  is_subtype check run_checks st0 unfold resfree sub_b sub_names_b.
+  is_subtype check run_checks st0 unfold resfree sub_b sub_names_b psl_default_normalised.
